@@ -185,8 +185,84 @@ Proof.
 Qed.
 
 (* ---- stage 4: the paragraph block itself ---- *)
+(* the delimited-block table up to the closing patterns: opening a code, quote or division block overwrites the closing
+   pattern of its definition with one built from the opening delimiter, and the entry is read only after it was written *)
+Definition is_classinj (d : ddef) : bool := match d_delim d with DfClassInj => true | _ => false end.
+Definition dcore (d : ddef) : ddef :=
+  mkD (d_name d) (d_openTag d) (d_closeTag d) (d_openRe d) (if is_classinj d then d_openRe d else d_closeRe d)
+      (d_verify d) (d_delim d) (d_content d) (d_expand d).
+Definition dblocks_std (D : list ddef) : Prop := map dcore D = map dcore dblocks_default.
+
+Lemma std_default : dblocks_std dblocks_default.
+Proof. reflexivity. Qed.
+
+Lemma std_length D : dblocks_std D -> length D = 9%nat.
+Proof. intros H. rewrite <- (map_length dcore D), H, map_length. reflexivity. Qed.
+
+Lemma dcore_fields d d' : dcore d = dcore d' ->
+  d_name d = d_name d' /\ d_openTag d = d_openTag d' /\ d_closeTag d = d_closeTag d' /\ d_openRe d = d_openRe d' /\
+  d_verify d = d_verify d' /\ d_delim d = d_delim d' /\ d_content d = d_content d' /\ d_expand d = d_expand d'.
+Proof. unfold dcore. intros H. inversion H. repeat split; assumption. Qed.
+
+Lemma dcore_close d d' : dcore d = dcore d' -> is_classinj d' = false -> d_closeRe d = d_closeRe d'.
+Proof.
+  intros H Hc. destruct (dcore_fields _ _ H) as (_ & _ & _ & _ & _ & E6 & _).
+  assert (Hc' : is_classinj d = false) by (unfold is_classinj in *; rewrite E6; exact Hc).
+  unfold dcore in H. rewrite Hc, Hc' in H. inversion H. reflexivity.
+Qed.
+
+
+Lemma std_nth_error D i d : dblocks_std D -> nth_error D i = Some d ->
+  exists d', nth_error dblocks_default i = Some d' /\ dcore d = dcore d'.
+Proof.
+  intros H E. assert (E' : nth_error (map dcore D) i = Some (dcore d)) by (apply map_nth_error; exact E).
+  rewrite H in E'. destruct (nth_error dblocks_default i) as [d'|] eqn:E2.
+  - exists d'. split; [reflexivity|]. rewrite (map_nth_error dcore i dblocks_default E2) in E'. generalize dependent (dcore d'). generalize (dcore d). intros b a Ea. inversion Ea. reflexivity.
+  - exfalso. apply nth_error_None in E2. assert (L : (length (map dcore dblocks_default) <= i)%nat) by (rewrite map_length; exact E2).
+    apply nth_error_None in L. rewrite L in E'. discriminate.
+Qed.
+
+Lemma std_split D : dblocks_std D ->
+  exists pre pd, D = pre ++ [pd] /\ length pre = 8%nat /\ map dcore pre = map dcore (removelast dblocks_default) /\ dcore pd = dcore para.
+Proof.
+  intros H. pose proof (std_length D H) as L.
+  assert (Hne : D <> []) by (intros ->; discriminate L). destruct (exists_last Hne) as (pre & pd & ->).
+  exists pre, pd. rewrite app_length in L. cbn [length] in L. split; [reflexivity|]. split; [lia|].
+  unfold dblocks_std in H. rewrite map_app in H. cbn [map] in H.
+  destruct para_facts as (_ & _ & _ & _ & _ & _ & _ & _ & Fsplit & Flen). rewrite Fsplit in H. rewrite map_app in H. cbn [map] in H.
+  apply app_inj_tail in H. exact H.
+Qed.
+
+Lemma std_nth_last (D pre : list ddef) (pd d0 : ddef) : D = pre ++ [pd] -> length pre = 8%nat -> nth 8 D d0 = pd /\ nth_error D 8 = Some pd.
+Proof.
+  intros -> L. split.
+  - rewrite app_nth2 by lia. rewrite L. reflexivity.
+  - rewrite nth_error_app2 by lia. rewrite L. reflexivity.
+Qed.
+
+(* the entry at a given index of a standard table, with what comes before it *)
+Lemma std_at D i cd0 : dblocks_std D -> (i < 9)%nat ->
+  exists pre cd post, D = pre ++ cd :: post /\ length pre = i /\ dcore cd = dcore (nth i dblocks_default cd0) /\
+    nth_error D i = Some cd /\ (forall d0, nth i D d0 = cd) /\
+    (forall d, In d pre -> exists d', In d' (firstn i dblocks_default) /\ d_openRe d = d_openRe d' /\ d_name d = d_name d').
+Proof.
+  intros H Hi. pose proof (std_length D H) as L.
+  assert (Ecd : exists cd, nth_error D i = Some cd).
+  { destruct (nth_error D i) eqn:E; [eauto|]. apply nth_error_None in E. lia. }
+  destruct Ecd as (cd & Ecd). destruct (nth_error_split D i Ecd) as (pre & post & ED & Lp).
+  exists pre, cd, post. split; [exact ED|]. split; [exact Lp|].
+  destruct (std_nth_error D i cd H Ecd) as (d' & Ed' & Hc). split.
+  { rewrite Hc. f_equal. symmetry. apply nth_error_nth. exact Ed'. }
+  split; [exact Ecd|]. split; [intros d0; apply nth_error_nth; exact Ecd|].
+  intros d Hd. unfold dblocks_std in H. rewrite ED in H.
+  assert (Hf : map dcore pre = map dcore (firstn i dblocks_default)).
+  { rewrite <- firstn_map. rewrite <- H. rewrite map_app. rewrite <- Lp. rewrite <- (map_length dcore pre). rewrite firstn_app, Nat.sub_diag, firstn_all. cbn [firstn]. rewrite app_nil_r. reflexivity. }
+  apply (in_map dcore) in Hd. rewrite Hf in Hd. apply in_map_iff in Hd as (d'' & Ed & Hd''). exists d''. split; [exact Hd''|].
+  symmetry in Ed. destruct (dcore_fields _ _ Ed) as (E1 & _ & _ & E4 & _). auto.
+Qed.
+
 Definition quiet_default (s : session) : Prop :=
-  s_dblocks s = dblocks_default /\ s_repls s = replacements_default /\ s_quotes s = quotes_default /\
+  dblocks_std (s_dblocks s) /\ s_repls s = replacements_default /\ s_quotes s = quotes_default /\
   pending_empty s /\ p_opts s = expand_none.
 
 Lemma inject_nothing_pending c t s : pending_empty s -> injectHtmlAttributes (c :: t) true s = Ok (c :: t, s).
@@ -221,40 +297,59 @@ Qed.
 Lemma quiet_defaults s : quiet_default s -> defaults (ienv_of s).
 Proof. intros (_ & H2 & H3 & _). split; assumption. Qed.
 
-Lemma nth_para s : s_dblocks s = dblocks_default -> nth 8 (s_dblocks s) para = para.
-Proof. intros ->. reflexivity. Qed.
-
-Lemma dblock_body_para n doc l s m :
-  quiet_default s -> safe_line l ->
-  m = {| m_start := 0; m_end := lenN l; m_groups := [Some l; Some l] |} ->
-  dblock_body (S (S (S n))) doc 8 para m [] s = Ok (($"<p>" ++ escape l ++ $"</p>", []), s).
+Lemma para_facts_of pd : dcore pd = dcore para ->
+  d_name pd = $"paragraph" /\ d_delim pd = DfOpening /\ d_content pd = CfNone /\ d_verify pd = DvNone /\
+  d_openTag pd = $"<p>" /\ d_closeTag pd = $"</p>" /\
+  d_expand pd = mkExpand (Some true) None None (Some true) (Some true) /\ d_openRe pd = d_openRe para.
 Proof.
-  intros Hq Hl ->. pose proof Hq as (Hd & Hr & Hqt & Hp & Ho).
+  intros H. destruct (dcore_fields _ _ H) as (E1 & E2 & E3 & E4 & E5 & E6 & E7 & E8).
+  destruct para_facts as (Fname & Fdelim & Fcontent & Fverify & Fopen & Fclose & Fexp & _).
+  rewrite E1, E2, E3, E5, E6, E7, E8. repeat split; assumption.
+Qed.
+
+(* the paragraph definition of a session with the standard table: the last entry *)
+Lemma std_para s : dblocks_std (s_dblocks s) ->
+  exists pre pd, s_dblocks s = pre ++ [pd] /\ length pre = 8%nat /\ dcore pd = dcore para /\
+    (forall d0, nth 8 (s_dblocks s) d0 = pd) /\ nth_error (s_dblocks s) 8 = Some pd /\
+    (forall d, In d pre -> exists d', In d' (removelast dblocks_default) /\ d_openRe d = d_openRe d').
+Proof.
+  intros H. destruct (std_split _ H) as (pre & pd & E & L & Hm & Hp). exists pre, pd. split; [exact E|]. split; [exact L|]. split; [exact Hp|].
+  split; [intros d0; apply (proj1 (std_nth_last _ pre pd d0 E L))|]. split; [apply (proj2 (std_nth_last _ pre pd pd E L))|].
+  intros d Hd. apply (in_map dcore) in Hd. rewrite Hm in Hd. apply in_map_iff in Hd as (d' & Ed & Hd'). exists d'. split; [exact Hd'|].
+  symmetry in Ed. destruct (dcore_fields _ _ Ed) as (_ & _ & _ & E4 & _). exact E4.
+Qed.
+
+Lemma dblock_body_para n doc l s m pd :
+  quiet_default s -> safe_line l -> dcore pd = dcore para -> (forall d0, nth 8 (s_dblocks s) d0 = pd) ->
+  m = {| m_start := 0; m_end := lenN l; m_groups := [Some l; Some l] |} ->
+  dblock_body (S (S (S n))) doc 8 pd m [] s = Ok (($"<p>" ++ escape l ++ $"</p>", []), s).
+Proof.
+  intros Hq Hl Hpd Hnth ->. pose proof Hq as (Hd & Hr & Hqt & Hp & Ho).
   destruct l as [|c0 rest0]; [destruct Hl|]. remember (c0 :: rest0) as l eqn:El.
-  destruct para_facts as (Fname & Fdelim & Fcontent & Fverify & Fopen & Fclose & Fexp & Fre & _).
+  destruct (para_facts_of pd Hpd) as (Fname & Fdelim & Fcontent & Fverify & Fopen & Fclose & Fexp & Fre).
   unfold dblock_body. rewrite Fdelim.
   unfold bind at 1. cbn [grp nth m_groups ret].
-  unfold bind at 1. unfold gets at 1. rewrite (nth_para s Hd).
+  unfold bind at 1. unfold gets at 1. rewrite (Hnth pd).
   cbn [readTo].
   unfold bind at 1.
-  replace (mem (d_name para) unterminated_names) with false by (rewrite Fname; vm_compute; reflexivity).
+  replace (mem (d_name pd) unterminated_names) with false by (rewrite Fname; vm_compute; reflexivity).
   rewrite andb_false_r. cbn [ret tl app].
-  unfold bind at 1. unfold gets at 1. rewrite (nth_para s Hd), Fexp, Ho.
+  unfold bind at 1. unfold gets at 1. rewrite (Hnth pd), Fexp, Ho.
   unfold expand_merge, expand_none. cbn [e_macros e_container e_skip e_spans e_specials truthy].
   replace (match l with [] => [] | _ :: _ => [l] end) with [l] by (rewrite El; reflexivity).
   cbn [app join].
   rewrite Fcontent.
   unfold bind at 1. unfold bind at 1. cbn [ret].
-  unfold bind at 1. unfold gets at 1. rewrite (nth_para s Hd).
-  replace (str_eqb (d_name para) $"html") with false by (rewrite Fname; vm_compute; reflexivity).
+  unfold bind at 1. unfold gets at 1. rewrite (Hnth pd).
+  replace (str_eqb (d_name pd) $"html") with false by (rewrite Fname; vm_compute; reflexivity).
   unfold bind at 1. cbn [ret].
   unfold bind at 1. rewrite Fopen.
   change ($"<p>") with (60 :: $"p>"). rewrite inject_nothing_pending by exact Hp.
   unfold bind at 1. unfold lift.
   rewrite (inline_plain n (ienv_of s) l (quiet_defaults s Hq) Hl).
   cbn [iret log_msgs bind ret].
-  unfold bind at 1. unfold gets at 1. rewrite (nth_para s Hd), Fclose.
-  replace (str_eqb (d_name para) $"division") with false by (rewrite Fname; vm_compute; reflexivity).
+  unfold bind at 1. unfold gets at 1. rewrite (Hnth pd), Fclose.
+  replace (str_eqb (d_name pd) $"division") with false by (rewrite Fname; vm_compute; reflexivity).
   cbn [andb ret bind modify].
   assert (Es : forall e, e = expand_none -> set_popts s e = s).
   { intros e ->. destruct s; simpl in *. subst. reflexivity. }
@@ -321,26 +416,24 @@ Lemma stage_para n doc l s : quiet_default s -> safe_line l ->
 Proof.
   intros Hq Hl. pose proof Hq as (Hd & _).
   unfold dblocks_render. unfold bind at 1. unfold gets at 1.
-  destruct para_facts as (Fname & _ & _ & Fverify & _ & _ & _ & _ & Fsplit & Flen).
-  assert (Elen : length (s_dblocks s) = 9%nat) by (rewrite Hd, Fsplit, app_length, Flen; reflexivity).
-  rewrite Elen.
-  pose proof (dblock_loop_skip (S (S (S n))) doc l s (removelast dblocks_default) [] [para] 1) as Sk.
-  cbn [length app] in Sk. rewrite Flen in Sk.
+  destruct (std_para s Hd) as (pre & pd & Esplit & Lpre & Hpd & Hnth & En & Hpre).
+  destruct (para_facts_of pd Hpd) as (Fname & _ & _ & Fverify & _ & _ & _ & Fre).
+  rewrite (std_length _ Hd).
+  pose proof (dblock_loop_skip (S (S (S n))) doc l s pre [] [pd] 1) as Sk.
+  cbn [length app] in Sk. rewrite Lpre in Sk.
   change (8 + 1)%nat with 9%nat in Sk. change (0 + 8)%nat with 8%nat in Sk.
   rewrite Sk.
   - cbn [dblock_loop]. unfold bind at 1. unfold gets at 1.
-    assert (En : nth_error (s_dblocks s) 8 = Some para).
-    { rewrite Hd, Fsplit. rewrite nth_error_app2 by (rewrite Flen; lia). rewrite Flen. reflexivity. }
-    rewrite En. cbn [andb].
+    rewrite En. cbn [andb]. rewrite Fre.
     rewrite (para_match l) by (apply safe_line_nlfree; exact Hl).
     unfold grp0, grp_s, grp. cbn [nth m_groups].
     rewrite Fname. replace (str_eqb $"paragraph" $"paragraph") with true by reflexivity.
     unfold db_verify. rewrite Fverify. cbn [negb].
-    pose proof (dblock_body_para n doc l s _ Hq Hl eq_refl) as Eb.
+    pose proof (dblock_body_para n doc l s _ pd Hq Hl Hpd Hnth eq_refl) as Eb.
     destruct l as [|c rest]; [destruct Hl|].
     unfold bind at 1. rewrite Eb. reflexivity.
-  - rewrite Hd. exact Fsplit.
-  - intros d Hdin. apply safe_line_no_match; [exact Hl | apply in_block_regexes_dblock; exact Hdin].
+  - exact Esplit.
+  - intros d Hdin. destruct (Hpre d Hdin) as (d' & Hd' & ->). apply safe_line_no_match; [exact Hl | apply in_block_regexes_dblock; exact Hd'].
 Qed.
 
 (* A one-line document over the safe alphabet: exactly <p>escaped line</p>, no diagnostic, session unchanged. *)
